@@ -7,9 +7,9 @@ pub const CONTEXTS: [&str; 19] = [
     "when", "unless", "apply", "apply-apply", "apply-renamed", "apply-prefixed",
 ];
 pub const SHAPES: [&str; 6] = ["self", "mutual-2", "mutual-3", "through-parameter", "variadic", "closure-returned"];
-pub const SHAPES_ALL: [&str; 18] = [
+pub const SHAPES_ALL: [&str; 19] = [
     "self", "mutual-2", "mutual-3", "through-parameter", "variadic", "closure-returned", "internal-definition", "fresh-closure-per-iteration", "apply-as-parameter",
-    "body-with-internal-variable", "body-with-internal-procedure", "through-forwarder", "forwarder-cycle", "operator-is-a-conditional", "operator-is-and-or", "operator-with-an-effect", "let*-bound-procedure", "when-with-several-forms",
+    "body-with-internal-variable", "body-with-internal-procedure", "through-forwarder", "forwarder-cycle", "operator-is-a-conditional", "operator-is-and-or", "operator-with-an-effect", "let*-bound-procedure", "when-with-several-forms", "closure-over-the-loop-frame",
 ];
 
 /// put `x` (an expression in tail position) into the tail position of the given context
@@ -147,6 +147,17 @@ pub fn program(shape: &str, ctxs: &[&str], n: u32) -> Vec<String> {
             forms.push(format!("(define (loop-b i acc) (probe i) (if (= i 0) acc (unless #f 0 {})))", w("(loop-a (- i 1) (step acc i))")));
             forms.push(format!("(loop-a {} 1)", n));
         }
+        "closure-over-the-loop-frame" => {
+            // every iteration makes one closure over its own frame and stores it in a global (the previous one is dropped);
+            // the closure stored by the last but one iteration is called at the end and must still see that iteration's i
+            forms.push("(define kept (lambda () 0))".to_string());
+            forms.push("(define (keep! c) (set! kept c) 0)".to_string());
+            forms.push(format!(
+                "(define (loop i acc z) (probe i) (if (= i 0) (+ (* acc 100) (kept)) {}))",
+                w("(loop (- i 1) (step acc i) (keep! (lambda () (+ i 10))))")
+            ));
+            forms.push(format!("(loop {} 1 0)", n));
+        }
         "through-forwarder" => {
             // the tail call goes through a procedure whose whole body is (apply f args)
             forms.push("(define (forward f . args) (apply f args))".to_string());
@@ -221,6 +232,7 @@ pub fn judge(shape: &str, ctxs: &[&str], n: u32) -> Report {
     let expected = match shape {
         "fresh-closure-per-iteration" => closed_form(n) * 10000 + n as i32,
         "operator-with-an-effect" => closed_form(n) * 10000 + (n % 10000) as i32,
+        "closure-over-the-loop-frame" => closed_form(n) * 100 + 11,
         _ => closed_form(n),
     };
     match &m.outcome {
